@@ -8,6 +8,7 @@ Exceptions allowed: read name cut at its first space, cg:Z value may be rewritte
 
 import collections
 import os
+from vf.util import vary_name  # noqa: E402
 
 from vf import monitor as M
 from vf.cli import run_cli
@@ -131,7 +132,7 @@ def run_case(ctx, rng, index, casedir):
     viol = []
     M.CTX["c16"] = True
     g = rgfa.gen_rgfa(rng, size=rng.choice(["small", "medium"]), id_style="s")
-    gpath = g.write(os.path.join(casedir, "g.gfa"), rng=rng)
+    gpath = g.write(os.path.join(casedir, vary_name(rng, "g.gfa")), rng=rng)
     coords = rgaf.Coords(g)
     nrec = rng.randint(6, 30)
     walks = ggaf.make_walks(g, rng, nrec, maxlen=6)
@@ -151,7 +152,7 @@ def run_case(ctx, rng, index, casedir):
     for l in recs:
         classes_of(l, sit)
     mode = rng.choice(["plain", "bgzf"])
-    gaf = os.path.join(casedir, "in.gaf" + ("" if mode == "plain" else ".gz"))
+    gaf = os.path.join(casedir, vary_name(rng, "in.gaf") + ("" if mode == "plain" else ".gz"))
     ggaf.write_gaf(gaf, recs, mode=mode, rng=rng, layout="tiny")
     by_name = {l.split("\t")[0].split(" ")[0]: l for l in recs}
     sigs = []
